@@ -32,6 +32,8 @@ def run(ctx, col, tier):
                         "adjacency-matrix values"]
     col.assumptions += ["well-formed tree: ids equal positions"]
 
+    from ..rules import memo
+    memo.run(ctx, col, ("swcgeom.core.branch", "swcgeom.core.path", "swcgeom.core.node", "swcgeom.core.compartment", "swcgeom.core.tree", "swcgeom.core.swc"))
     col.guard(anchored, ctx, col)
     col.guard(spaces, ctx, col)
     col.guard(accessors, ctx, col)
